@@ -55,7 +55,9 @@ static void lv_putcells(const void *p, size_t n, const char *orig_hex)
     }
 }
 
-#define LV_MAXTOK 64
+#ifndef LV_MAXTOK
+#define LV_MAXTOK 4096
+#endif
 static int lv_split(char *line, char **tok)
 {
     int n = 0;
